@@ -26,12 +26,12 @@ package webrtc
 //@ field PeerConnection.greaterMid props C09 writers (*PeerConnection).CreateOffer
 
 // Mid allocation in CreateOffer: every mid handed to a transceiver is the decimal form of
-// the counter's current value, and only a transceiver without a mid is given one (so SetMid
-// cannot fail there). That the counter only grows (new mids exceed every numeric mid seen
+// the counter's value after it was stepped by one in the same loop iteration, and only a
+// transceiver without a mid is given one (so SetMid cannot fail there). That the counter only grows (new mids exceed every numeric mid seen
 // before) holds barring wrap-around of the 64-bit counter; it is not claimed here because
 // no inductive bound excludes the wrap (a remote mid of 9223372036854775807 reaches it).
 //@ func (*PeerConnection).CreateOffer #mids
 //@ props C09
 //@ nosafety
 //@ requires pcValid(pc)
-//@ atcall (*RTPTransceiver).SetMid assert callarg1 == strconv.Itoa(pc.greaterMid) && callarg0.Mid() == ""
+//@ atcall (*RTPTransceiver).SetMid assert callarg1 == strconv.Itoa(pc.greaterMid) && pc.greaterMid == loophead(pc.greaterMid) + 1 && callarg0.Mid() == ""
